@@ -28,7 +28,7 @@ class Ctx:
         self.level = "model_checking"
         self._distinct = set()
         self.findings = load_findings()
-        self.work = os.path.join(CACHE, "work", pid + "-" + tier)
+        self.work = os.path.join(CACHE, "work", "%s-%s-%d" % (pid, tier, os.getpid()))
         shutil.rmtree(self.work, ignore_errors=True)
         os.makedirs(self.work, exist_ok=True)
         os.makedirs(os.path.join(VERIF, "replays"), exist_ok=True)
